@@ -97,21 +97,27 @@ def build(tier, seed, exclude):
         return False
         """, timeout=30, kind="twin")
     # parse_mount_table keeps the order get_mount relies on and the cifs sub-tree rule
-    g.cond("h_parse_order", "a0: str, b0: str, p0: str",
-           ["_okc(a0) and _okc(b0) and _okc(p0)"], """
-        m1, m2, p = _join([a0]), _join([b0]), _join([p0, "x"])
-        if m1 == m2:
+    g.raw("""
+    _POOL = ["/data", "/data2", "/data/sub", "/d", "/mnt", "/mnt/a.b", "/datab/x"]
+    _FILES = ["", "/f", "2/f", "/sub/f", "b/x/f", ".b"]
+    """)
+    g.cond("h_parse_order", "i: int, j: int, k: int, f: int, swap: bool",
+           ["0 <= i < 7 and 0 <= j < 7 and 0 <= k < 7 and 0 <= f < 6"], """
+        m1, m2 = _POOL[i], _POOL[j]
+        p = _POOL[k] + _FILES[f]
+        if m1 == m2 or p.endswith("/") or "//" in p:
             return True
-        out = "//srv/x on %s type cifs (rw)\\n//srv/y on %s type cifs (rw)\\n" % (m1, m2)
-        tbl = MI.parse_mount_table(0, out)
-        if sorted(m for m, _ in tbl) != sorted([m1, m2]):
-            return True   # whitespace etc. confuses the `mount` line regex: outside this property
+        lines = ["//srv/x on %s type cifs (rw)" % m1, "//srv/y on %s type CIFS (rw)" % m2]
+        if swap:
+            lines.reverse()
+        tbl = MI.parse_mount_table(0, "\\n".join(lines) + "\\n")
         with MI.patch_table(tbl):
             mp, fs = MI.get_mount(p)
+            cifs = MI.on_cifs(p)
         T.reach()
-        em, et = _oracle([(m1, "cifs"), (m2, "cifs")], p)
-        if str(mp) != em:
-            return T.fail(lambda: f"parse_mount_table+get_mount({p!r}) mounts {m1!r},{m2!r} -> {str(mp)!r}, expected {em!r}")
+        em, et = _oracle([(m1, "cifs"), (m2, "CIFS")], p)
+        if str(mp) != em or cifs != (em != "/" and et == "cifs"):
+            return T.fail(lambda: f"parse_mount_table+get_mount({p!r}) mounts {m1!r},{m2!r} -> {str(mp)!r},{cifs} expected {em!r}")
         return True
         """, timeout=to)
     return g.spec(bounds={"mounts": "2-3 (two symbolic + optional '/')", "mount depth": "1-2 components",
